@@ -81,6 +81,12 @@ def run_property(P, tier, seed, replay=None):
     elif not b["coq_ok"]:
         # some other file of the development failed; only relevant if this property's file failed (checked above)
         proof_ok = True
+    chk = None
+    if tier == "thorough" and proof_ok and not replay:
+        ok_chk, chk = core.coqchk_props(P.prop)
+        if not ok_chk:
+            proof_ok = False
+            broken = "coqchk does not accept Props/%s.vo with no axioms: %s" % (P.prop, chk)
 
     # ---------- 2. correspondence + oracle
     if replay:
@@ -188,6 +194,7 @@ def run_property(P, tier, seed, replay=None):
         "trusted_base": core.TRUSTED_BASE_COMMON + getattr(P, "trusted_extra", []),
         "theorems": [{"name": n, "assumptions": a or "Closed under the global context"} for n, a in thms],
         "proof_status": "all obligations check" if proof_ok else "BROKEN: %s" % broken,
+        "coqchk": chk if chk else "not run in this tier (thorough only)",
         "evaluations": len(cases),
         "distinct_nontrivial": len(distinct),
         "rule": P.rule,
